@@ -24,6 +24,9 @@ REQUIRED_THEOREMS = ["save_then_load_restores_registers", "save_touches_only_own
 # the models were written against (Props/StateInventory)
 THEOREM_MODULES.append("Yarel.Props.StateInventory")
 REQUIRED_THEOREMS += ['state_of_interpreter_and_fiber']
+# who writes the state the mechanism models are about: the set of write sites per group of fields, regenerated on every run (Props/StateWrites)
+THEOREM_MODULES.append("Yarel.Props.StateWrites")
+REQUIRED_THEOREMS += ['writers_of_fiber_links']
 LEVEL = "proof"
 ASSUMPTIONS = [
     "fiber mechanism model Yarel/Model/Fibers.lean transcribes load_fiber/unload_fiber/return_impl (tie: event replay)",
